@@ -15,24 +15,31 @@ def conv_bin():
 
 
 def clap_part(chk):
+    """--color=<arg> after every prior value of the process-wide choice; judged by Trace_ColorChoice (ColorChoice!ClapFlag)"""
     vc = conv_bin()
     env = {k: v for k, v in os.environ.items() if k not in ("NO_COLOR", "CLICOLOR", "CLICOLOR_FORCE")}
     out = subprocess.run([vc, "clap"], stdout=subprocess.PIPE, stderr=subprocess.PIPE, text=True, env=env, timeout=120)
     if out.returncode != 0:
         raise vlib.ToolError("vh-conv clap failed: " + out.stderr[-800:])
-    got = {" ".join(x["args"][1:]): x["result"] for x in json.loads(out.stdout)}
-    want = {"": "Auto", "--color auto": "Auto", "--color always": "Always", "--color never": "Never", "--color=always": "Always"}
-    for k, v in want.items():   # ColorChoice!ClapFlag
-        r = got.get(k)
-        chk.evaluations += 1
-        if not isinstance(r, dict) or r["parsed"] != v or r["global_after_write"] != v:
-            chk.violation("clap flag %r: observed %s, specification (ColorChoice!ClapFlag) says %s" % (k, r, v), {"kind": "clap-flag", "args": k, "observed": r, "expected": v})
-    for k in ("--color sometimes", "--color always-ansi"):
-        chk.evaluations += 1
-        if got.get(k) != "rejected":
-            chk.violation("clap flag %r should be rejected (the flag maps one-to-one onto auto/always/never), observed %s" % (k, got.get(k)),
-                          {"kind": "clap-flag", "args": k, "observed": got.get(k), "expected": "rejected"})
-    chk.part("A_clap_flag", cases=len(got))
+    evs = json.loads(out.stdout)
+    wd = vlib.workdir("c09-clap")
+    p = os.path.join(wd, "clap.ndjson")
+    bad = 0
+    rest = evs
+    # validate; after a rejection continue behind the rejected event so that every event is judged
+    while rest and bad < 10:
+        vlib.write_lines(p, rest)
+        ok, rej, res = vlib.tlc_trace(p, "Trace_ColorChoice", "c09-clap")
+        chk.add_tlc(res)
+        if ok:
+            break
+        e = rej["event"]
+        bad += 1
+        chk.violation("clap flag --color=%s after a global choice of %s: parsed %s, global afterwards %s (ColorChoice!ClapFlag: the flag maps one-to-one onto the "
+                      "global choice and is written through)" % (e["arg"], e["prior"], e["parsed"], e["global_after"]), {"kind": "clap-flag", "event": e})
+        rest = rest[rej["reject_at"]:]
+    chk.evaluations += len(evs)
+    chk.part("A_clap_flag", cases=len(evs), priors=4)
 
 
 def run(chk):
